@@ -29,7 +29,7 @@ META = dict(
          "of 'most recent Pause' are accepted (pre-pause value or the safe value left by the first Pause).",
 )
 
-OUTS = ("Out1", "Out2", "Free")
+OUTS = ("Out1", "Out2", "Free", "Out3")
 WRITERS = {"SetOut": "Out1", "Set1": "Out1", "Valve": "Out2", "On1": "Out1", "OpenV": "Out2"}
 
 # abstract events; ("set1",) and ("valve",) are made concrete per position (fresh value / toggled value); ("bogus",) injects
